@@ -112,6 +112,7 @@ class Features:
     style_names: bool = True
     enum_first_zero_bias: bool = True
     enum_first_zero: bool = False  # first member is always 0 (keeps recorded finding D4b out of a check)
+    long_names: bool = False  # a few identifiers of 29..256 characters
     odd_file_names: bool = False  # `sensor.v2.bitproto`, `my-proto.bitproto` for the file nothing imports
     subdirs: bool = False  # files in sub-directories, imports by relative paths (only checks that address files by File.filename)
     keyword_field_names: bool = False  # a field called `type`, rarely (encoding checks switch it on)
@@ -505,6 +506,8 @@ def units(draw: Any, feat: Optional[Features] = None) -> Unit:
         prune_unused_imports(b.unit)
     if feat.shared_nested_names and feat.nested and feat.enums and draw(st.integers(0, 2)) == 0:
         share_nested_names(draw, b.unit, feat)
+    if feat.long_names and draw(st.integers(0, 5)) == 1:
+        lengthen_names(draw, b.unit)
     if feat.odd_file_names and draw(st.integers(0, 3)) == 1:
         # a schema file name with more dots / dashes than `<name>.bitproto`; only for the file nothing imports (the last
         # one: imports go to earlier files), since target languages import a module by its file name
@@ -526,6 +529,62 @@ def units(draw: Any, feat: Optional[Features] = None) -> Unit:
                 if draw(st.integers(0, 9)) == 0 and ref.nbits(m) > 0:
                     m.max_bytes = ref.nbytes(m) + draw(st.sampled_from([0, 0, 1, 7]))
     return b.unit
+
+
+NAME_LENGTHS = [29, 31, 32, 33, 48, 63, 64, 65, 127, 128, 255, 256]
+
+
+def _snake_tail(k: int) -> str:
+    t = ("_measurement_channel_calibrated_value_filtered_average" * (k // 40 + 2))[:k]
+    return t.rstrip("_") + ("x" if t.endswith("_") else "")
+
+
+def _pascal_tail(k: int) -> str:
+    return ("MeasurementChannelCalibratedValueFilteredAverage" * (k // 40 + 2))[:k]
+
+
+def lengthen_names(draw: Any, unit: Unit) -> int:
+    """Identifier LENGTH is a dimension of its own (fixed-size buffers, format widths, truncating tables): a few
+    names of the unit are lengthened to 29..256 characters in their own style (lower_snake fields, PascalCase
+    types, UPPER_SNAKE constants and enum members); references are re-derived by the scoping rules."""
+    from . import scoping
+    from .model import iter_enums, iter_messages
+
+    cands: List[Any] = []
+    for f in unit.files:
+        for it in f.items:
+            if isinstance(it, (Const, Alias)):
+                cands.append(it)
+        for e in iter_enums(f):
+            cands.append(e)
+            cands.extend((e, k) for k in range(len(e.members)))
+        for m in iter_messages(f):
+            cands.append(m)
+            cands.extend(m.fields())
+    if not cands:
+        return 0
+    n = 0
+    for c in draw(st.lists(st.sampled_from(cands), min_size=1, max_size=4, unique_by=id)):
+        target = draw(st.sampled_from(NAME_LENGTHS))
+        if isinstance(c, tuple):
+            e, k = c
+            name, v = e.members[k]
+            if len(name) < target:
+                e.members[k] = (name + _snake_tail(target - len(name)).upper(), v)
+                n += 1
+            continue
+        if len(c.name) >= target:
+            continue
+        if isinstance(c, Field):
+            c.name = c.name + _snake_tail(target - len(c.name))
+        elif isinstance(c, Const):
+            c.name = c.name + _snake_tail(target - len(c.name)).upper()
+        else:
+            c.name = c.name + _pascal_tail(target - len(c.name))
+        n += 1
+    if n and not (scoping.retext(unit) and scoping.names_unique(unit)):
+        raise AssertionError("lengthened names must stay resolvable and unique")
+    return n
 
 
 SHARED_NAMES = ["Kind", "Mode", "Sample", "Inner", "State"]
@@ -807,6 +866,11 @@ def unit_labels(unit: Unit) -> List[str]:
                 labs.add("import_path_with_dirs")
         if not f.base.isidentifier():
             labs.add("file_name_with_dots_or_dashes")
+        for m in iter_messages(f):
+            if any(len(x.name) >= 29 for x in m.fields()):
+                labs.add("field_name_ge_29_chars")
+            if len(m.name) >= 29:
+                labs.add("type_name_ge_29_chars")
         for it in f.items:
             if isinstance(it, Const):
                 labs.add("const")
